@@ -268,6 +268,7 @@ pub trait DynSub: Send + Sync {
 
 thread_local! {
     static LAST_PANIC: RefCell<Option<String>> = const { RefCell::new(None) };
+    static IN_GUARDED: Cell<bool> = const { Cell::new(false) };
 }
 
 pub fn install_panic_hook() {
@@ -282,7 +283,8 @@ pub fn install_panic_hook() {
             "<non-string panic>".to_string()
         };
         let thread = std::thread::current().name().unwrap_or("?").to_string();
-        if verbose {
+        let guarded = IN_GUARDED.with(|g| g.get());
+        if verbose || (!guarded && thread.starts_with("ctl-")) || thread == "main" {
             eprintln!("[panic on {thread}] {msg} at {loc}");
         }
         LAST_PANIC.with(|p| *p.borrow_mut() = Some(format!("{msg} at {loc}")));
@@ -294,7 +296,10 @@ pub static LAST_BG_PANIC: Mutex<Option<String>> = Mutex::new(None);
 /// Runs one case, converting panics into failures with signature `panic`.
 pub fn run_guarded<S: Sub>(s: &S, case: &S::Case, cx: &Ctx) -> CaseResult {
     LAST_PANIC.with(|p| *p.borrow_mut() = None);
-    match catch_unwind(AssertUnwindSafe(|| s.run(case, cx))) {
+    IN_GUARDED.with(|g| g.set(true));
+    let res = catch_unwind(AssertUnwindSafe(|| s.run(case, cx)));
+    IN_GUARDED.with(|g| g.set(false));
+    match res {
         Ok(r) => r,
         Err(_) => {
             let msg = LAST_PANIC.with(|p| p.borrow_mut().take()).unwrap_or_else(|| "panic".into());
